@@ -124,7 +124,15 @@ def np_array(code, shape, flat):
     if code == "S":
         a = np.array(list(flat), dtype="S") if flat and max(len(s) for s in flat) > 0 else np.array(list(flat), dtype="S1")
         return a.reshape(shape)
-    return np.array(list(flat), dtype=NP[code]).reshape(shape)
+    a = np.array(list(flat), dtype=NP[code]).reshape(shape)
+    # stored byte order is not part of the value: big-endian, little-endian and native arrays (netCDF-3 readers and pydap's own
+    # client deliver big-endian data) must be served alike.  Deterministic in the values, so that rebuilt datasets agree.
+    k = (len(flat) * 7 + sum(len(str(x)) for x in flat[:3]) + len(shape)) % 4
+    if k == 1:
+        a = a.astype(a.dtype.newbyteorder(">"))
+    elif k == 2:
+        a = a.astype(a.dtype.newbyteorder("<"))
+    return a
 
 
 def build(desc, seq_backend="numpy"):
